@@ -23,3 +23,6 @@ pub broadcast axiom fn axiom_to_string_refref(s: &&&String, r: String)
 pub broadcast axiom fn axiom_to_string_ref(s: &&String, r: String)
     ensures #[trigger] vstd::string::to_string_from_display_ensures::<&String>(s, r) ==> r@ == (**s)@;
 pub broadcast group group_shown { axiom_to_string_string }
+
+pub assume_specification<T, E> [std::result::Result::<T, E>::unwrap_or] (r: std::result::Result<T, E>, default: T) -> (v: T)
+    ensures r matches Ok(x) ==> v == x, r is Err ==> v == default;
